@@ -53,6 +53,7 @@ type clOp struct {
 
 type clCase struct {
 	Flavor  string `json:"flavor"`
+	Sig     string `json:"sig,omitempty"` // signature prefix when it differs from the flavour (a unit of another property running this flavour's operations)
 	MaxSeg  int64  `json:"maxseg"`
 	OCC     bool   `json:"occ,omitempty"`
 	Workers int    `json:"workers,omitempty"`
@@ -486,6 +487,33 @@ func epochCacheInvariant(l *commitLog, newestMsgEpoch uint64, haveMsgs bool, max
 		}
 		if last < newestMsgEpoch {
 			return fmt.Sprintf("LastLeaderEpoch %d is below the epoch %d of the newest message", last, newestMsgEpoch)
+		}
+	}
+	return ""
+}
+
+// epochLookupInvariant is what the replicas' reconciliation after a leader
+// change relies on: the epoch history maps every retained message to the leader
+// epoch it was written in (the entry with the greatest start offset at or below
+// the message's offset names the message's epoch). Retention and compaction
+// trim the history, truncation cuts it, a reopen reloads it.
+func epochLookupInvariant(l *commitLog, all []*mMsg) string {
+	c := l.leaderEpochCache
+	c.mu.RLock()
+	defer c.mu.RUnlock()
+	for _, m := range all {
+		var e uint64
+		found := false
+		for _, eo := range c.epochOffsets {
+			if eo.startOffset <= m.Off {
+				e, found = eo.leaderEpoch, true
+			}
+		}
+		if !found && m.Epoch == 0 {
+			continue
+		}
+		if e != m.Epoch {
+			return fmt.Sprintf("the epoch history %v maps offset %d to epoch %d, the message was written in epoch %d", c.epochOffsets, m.Off, e, m.Epoch)
 		}
 	}
 	return ""
